@@ -494,6 +494,14 @@ func (e *lxEnv) steps(list []ast.Stmt, loop string, res *lxResult) bool {
 						i++
 						continue
 					}
+					// booleans: if A != B { return A }  (the true one first: A && !B)
+					if tv, ok := e.info.Types[ne.X]; ok && tv.Type != nil {
+						if bt, isB := tv.Type.Underlying().(*types.Basic); isB && bt.Info()&types.IsBoolean != 0 && e.src(ret.Results[0]) == e.src(ne.X) && e.src(ne.X) != e.src(ne.Y) {
+							res.keys = append(res.keys, lxKey{Expr: e.src(ne.X), Kind: "bool", MoreIsLess: true, Loop: loop})
+							i++
+							continue
+						}
+					}
 				}
 			}
 			// pair
@@ -852,6 +860,27 @@ func (e *lxEnv) analyse(body *ast.BlockStmt) *lxResult {
 		if !isPre {
 			break
 		}
+		// a local type declaration stands alone; "var l, r T" declares a
+		// mirrored pair in one statement
+		if ds, ok := s.(*ast.DeclStmt); ok {
+			if gd, ok := ds.Decl.(*ast.GenDecl); ok {
+				if gd.Tok == token.TYPE {
+					i++
+					continue
+				}
+				if gd.Tok == token.VAR && len(gd.Specs) == 1 {
+					if vs, ok := gd.Specs[0].(*ast.ValueSpec); ok && len(vs.Names) == 2 && len(vs.Values) == 0 {
+						if e.bind(vs.Names[0].Name, vs.Names[1].Name, true) {
+							i++
+							continue
+						}
+					}
+				}
+			}
+		}
+		if i+1 >= len(list) {
+			break
+		}
 		if !e.mirror(list[i], list[i+1], true) {
 			res.why = "the key computations for the two operands are not mirror images at " + e.pos(s) + ": " + e.src(list[i]) + " / " + e.src(list[i+1])
 			return res
@@ -1119,6 +1148,19 @@ func runLX(c *Ctx) (obls []Obl) {
 }
 
 
+// lxCounterKey: a counter is a local or a field of a local (left.loc).
+func lxCounterKey(e ast.Expr) string {
+	switch x := e.(type) {
+	case *ast.Ident:
+		return x.Name
+	case *ast.SelectorExpr:
+		if id, ok := x.X.(*ast.Ident); ok {
+			return id.Name + "." + x.Sel.Name
+		}
+	}
+	return ""
+}
+
 // lxClassifyCounts: which locals of a body count frames per Location
 // ("loc": x[elem.Location]++ in a range loop) or frames of package main
 // ("main": if elem.Func.IsPkgMain { x++ }).
@@ -1139,8 +1181,8 @@ func lxClassifyCounts(body *ast.BlockStmt) map[string]string {
 				if ix, ok := st.X.(*ast.IndexExpr); ok && st.Tok == token.INC {
 					if sel, ok := ix.Index.(*ast.SelectorExpr); ok && sel.Sel.Name == "Location" {
 						if id, ok := sel.X.(*ast.Ident); ok && id.Name == v.Name {
-							if arr, ok := ix.X.(*ast.Ident); ok {
-								counts[arr.Name] = "loc"
+							if k := lxCounterKey(ix.X); k != "" {
+								counts[k] = "loc"
 							}
 						}
 					}
@@ -1148,8 +1190,8 @@ func lxClassifyCounts(body *ast.BlockStmt) map[string]string {
 			case *ast.IfStmt:
 				if sel, ok := st.Cond.(*ast.SelectorExpr); ok && sel.Sel.Name == "IsPkgMain" && len(st.Body.List) == 1 {
 					if inc, ok := st.Body.List[0].(*ast.IncDecStmt); ok && inc.Tok == token.INC {
-						if id, ok := inc.X.(*ast.Ident); ok {
-							counts[id.Name] = "main"
+						if k := lxCounterKey(inc.X); k != "" {
+							counts[k] = "main"
 						}
 					}
 				}
